@@ -39,6 +39,30 @@ pub enum Fault {
 
 pub struct C03Prop;
 
+/// The base image travels with the witness: after a restart on a full device the block manager picks
+/// the block to reclaim in `HashSet` iteration order, so a base image rebuilt in another process may
+/// differ in which block is clean. (zstd-compressed, hex encoded.)
+fn pack_image(img: &Image) -> Vec<String> {
+    img.parts
+        .iter()
+        .map(|p| {
+            let z = zstd::stream::encode_all(&p[..], 3).expect("zstd");
+            z.iter().map(|b| format!("{b:02x}")).collect::<String>()
+        })
+        .collect()
+}
+
+fn unpack_image(v: &Value) -> Option<Image> {
+    let parts = v.as_array()?;
+    let mut out = vec![];
+    for p in parts {
+        let s = p.as_str()?;
+        let bytes: Vec<u8> = (0..s.len() / 2).map(|i| u8::from_str_radix(&s[2 * i..2 * i + 2], 16).unwrap_or(0)).collect();
+        out.push(zstd::stream::decode_all(&bytes[..]).ok()?);
+    }
+    Some(Image { parts: out })
+}
+
 struct Base {
     cfg: HybCfg,
     image: Image,
@@ -203,6 +227,14 @@ fn evaluate(base: &Base, img: &Image, res: &mut ShardResult) -> Vec<(String, Str
     }
     {
         let h = r.world.hist.lock().unwrap();
+        if std::env::var_os("VERIF_DUMP_IO").is_some() {
+            for l in h.lookups.iter() {
+                println!("  lookup k{} -> {:?}", l.key, l.res);
+            }
+            for io in r.world.io.log().iter() {
+                println!("  io{} {:?} p{} @{}+{}", io.id, io.kind, io.part, io.offset, io.len);
+            }
+        }
         for p in h.panics.iter() {
             out.push(("G.panicked".into(), format!("a lookup or recovery task panicked: {p}")));
         }
@@ -315,6 +347,7 @@ impl Prop for C03Prop {
             if shard.0 == 0 {
                 res.add("faults_total", faults.len() as u64);
             }
+            let packed = pack_image(&base.image);
             for f in faults.iter() {
                 let mine = counter % shard.1 == shard.0;
                 counter += 1;
@@ -345,7 +378,7 @@ impl Prop for C03Prop {
                     clause: "G.abort".into(),
                     signature: sig("G.abort", &spec, f),
                     message: format!("the process died (abort / failed allocation) while reopening or reading the faulted image  [base image {:?}, fault {:?}]", spec, f),
-                    witness: json!({"enumerator": "F", "base": spec, "fault": f}),
+                    witness: json!({"enumerator": "F", "base": spec, "fault": f, "base_image": packed}),
                 });
                 let c = evaluate(&base, &img, &mut res);
                 vcore::par::journal_clear();
@@ -357,7 +390,7 @@ impl Prop for C03Prop {
                             clause: clause.clone(),
                             signature,
                             message: format!("{msg}  [base image {:?}, fault {:?}]", spec, f),
-                            witness: json!({"enumerator": "F", "base": spec, "fault": f}),
+                            witness: json!({"enumerator": "F", "base": spec, "fault": f, "base_image": packed}),
                         });
                     }
                 }
@@ -374,10 +407,20 @@ impl Prop for C03Prop {
     fn replay(&self, witness: &Value, verbose: bool) -> Vec<Violation> {
         let spec: BaseSpec = serde_json::from_value(witness["base"].clone()).expect("witness base");
         let f: Fault = serde_json::from_value(witness["fault"].clone()).expect("witness fault");
-        let base = build_base(&spec).expect("base image");
+        let mut base = build_base(&spec).expect("base image");
+        if let Some(img) = unpack_image(&witness["base_image"]) {
+            base.image = img;
+        }
         let img = apply_fault(&base, &f);
         if verbose {
             println!("replaying C03 fault {:?} on base {:?}", f, spec);
+            if std::env::var_os("VERIF_DUMP_IO").is_some() {
+                for (pi, p) in base.image.parts.iter().enumerate() {
+                    for (pg, chunk) in p.chunks(4096).enumerate() {
+                        println!("  base part {pi} page {pg} fp {:016x}", vcore::fingerprint(&chunk));
+                    }
+                }
+            }
         }
         let mut res = ShardResult::default();
         let mut vs = vec![];
